@@ -438,7 +438,8 @@ def reference_paths(source: str, params=None, like=None, repo=None):
         from .. import callnorm
 
         callnorm.canonicalise(repo, ("function", fn, like.module, like.cls))
-    return summary.summarise(fn, params, module_literals(repo, like, fn) if like is not None and repo is not None else None)
+    seq = summary.sequence_parameters(like.node) if like is not None else None  # the model text carries no annotations: the implementation's apply
+    return summary.summarise(fn, params, module_literals(repo, like, fn) if like is not None and repo is not None else None, seq_names=seq)
 
 
 def agree(ctx, rule, finfo, reference: str, what: dict, params=None, keep=(), key_prefix="", only_cases=None, ignore=()):
